@@ -92,8 +92,9 @@ class Case:
 
 class Contract:
     def __init__(self, qualname, params, cases, requires=None, setup=None, props=(), loops=None, inline=(),
-                 tables=(), note="", body_model=None, frame_roots=None):
-        self.qualname = qualname
+                 tables=(), note="", body_model=None, frame_roots=None, callee=True, target=None):
+        self.qualname = qualname          # id of the contract (= the function's qualname for callee contracts)
+        self.target = target or qualname  # module:qualname of the function it is about
         self.params = params
         self.cases_fn = cases
         self.requires = requires
@@ -106,6 +107,7 @@ class Contract:
         self.body_model = body_model
         self.frame_roots = frame_roots
         self.as_context = None
+        self.callee = callee        # False: the contract only describes the function under a unit-mode precondition
 
     # -- callee mode -----------------------------------------------------------------------------
     def apply(self, E, f, args, kwargs):
@@ -240,7 +242,7 @@ def verify_unit(loader, contract, registry, timeout_ms=20000, max_paths=MAX_PATH
     res.props = contract.props
     t0 = time.time()
     try:
-        target = find_function(loader, contract.qualname)
+        target = find_function(loader, contract.target)
     except Unsupported as e:
         res.demoted = str(e)
         return res
@@ -264,7 +266,7 @@ def verify_unit(loader, contract, registry, timeout_ms=20000, max_paths=MAX_PATH
             break
         dec = work.pop()
         reset_oids()
-        E = Engine(loader, dec, contracts=registry.contracts, loops=loops, unit=contract.qualname,
+        E = Engine(loader, dec, contracts=registry.contracts, loops=loops, unit=contract.target,
                    timeout_ms=timeout_ms, tables=registry.tables, inline=contract.inline)
         E.path_id = "".join(str(d) for d in dec)
         try:
@@ -301,7 +303,7 @@ def verify_unit(loader, contract, registry, timeout_ms=20000, max_paths=MAX_PATH
 
 
 def run_path(E, contract, fn, res):
-    short = contract.qualname.split(":")[1]
+    short = contract.qualname.split(":")[1].split("#")[0]
     args = contract.setup(E)              # dict name -> value; assumes the precondition
     ctx = Ctx(E, args)
     if contract.requires is not None:
@@ -497,5 +499,5 @@ class Registry:
         self.contracts[contract.qualname] = contract
         self.groups.setdefault(group, []).append(contract.qualname)
         for k, v in contract.loops.items():
-            self.loops[(contract.qualname, k)] = v
+            self.loops[(contract.target, k)] = v
         return contract
